@@ -333,7 +333,7 @@ PROPS["C08"] = dict(
 
 PROPS["C17"] = dict(
     title="Limit faults fire after exactly the configured expirations; set handler runs",
-    module="Cfdp.Props.C17",
+    module="Cfdp.Props.C17l",
     namespace="Cfdp.Loop",
     theorems=["Cfdp.Timer.updateLoop_closed", "Cfdp.Timer.C17_limit_not_early", "Cfdp.Timer.C17_counter_history",
               "C17_send_timers", "C17_recv_timers",
@@ -342,7 +342,10 @@ PROPS["C17"] = dict(
               "Cfdp.Send.C17_send_handler", "Cfdp.Send.C17_send_default_cancel", "Cfdp.Send.C17_send_abandon",
               "Cfdp.Recv.C17_recv_handler", "Cfdp.Recv.C17_recv_default_cancel", "Cfdp.Recv.C17_recv_abandon",
               "Cfdp.Send.C17_send_ack_expiry", "Cfdp.Send.C17_send_eof_rearms", "Cfdp.Send.C17_send_progress_resets",
-              "Cfdp.Recv.C17_recv_ack_expiry", "Cfdp.Recv.C17_recv_progress_resets", "Cfdp.Recv.C17_recv_nak_progress"],
+              "Cfdp.Recv.C17_recv_ack_expiry", "Cfdp.Recv.C17_recv_progress_resets", "Cfdp.Recv.C17_recv_nak_progress",
+              "Cfdp.Timer.C17_limit_not_late", "Cfdp.Recv.C17_recv_inactivity_not_late", "Cfdp.Recv.C17_recv_ack_not_late",
+              "Cfdp.Recv.C17_recv_nak_not_late", "Cfdp.Send.C17_send_inactivity_not_late", "Cfdp.Send.C17_send_ack_not_late",
+              "C17_recv_wakes_by_expiry", "C17_send_wakes_by_expiry"],
     engines=["send", "recv"],
     design="§6 C17",
     technique="Lean 4 proofs: closed form and invariant of the Counter model, invariant over all event histories of both transaction models, step theorems for the fault handlers + differential correspondence",
@@ -357,14 +360,18 @@ PROPS["C17"] = dict(
                 "the current progress and then does exactly what handlerFor returns - Ignore continues, Cancel (also when nothing is configured), Suspend, Abandon = "
                 "Terminated with no PDU (C17_*_handler, _default_cancel, _abandon). One retransmission per expiry: an expiry below the limit only sets the EOF / Finished "
                 "flag, transmitting re-arms the timer and keeps the count (C17_*_ack_expiry, C17_send_eof_rearms); progress resets the counts, and a PDU arriving while the sender is suspended leaves its inactivity counter paused (finding F36) (C17_*_progress_resets, "
-                "C17_recv_nak_progress). Tie to the code: send/recv engines compare every counter (count, paused, elapsed ns) after every call on a paused clock."),
+                "C17_recv_nak_progress). Never late (Props/C17l.lean): a running counter with r = max - count expirations to go that is looked at at or after start + r x timeout answers "
+                "limit_reached with true - every elapsed period is counted, however late the look (C17_limit_not_late, from the closed form) - and in that very call of handle_timeout "
+                "the transaction raises the fault, a cancelled one is abandoned (C17_recv_inactivity_not_late, _ack_not_late, _nak_not_late, C17_send_inactivity_not_late, _ack_not_late); "
+                "and the sleep the task computes never goes past the expiry of a running counter (C17_recv_wakes_by_expiry, C17_send_wakes_by_expiry), so on the model's clock the look "
+                "comes at the expiry. Tie to the code: send/recv engines compare every counter (count, paused, elapsed ns) after every call on a paused clock."),
     level_note=RECV_SEND_NOTE + " The ghost field Counter.base is not part of the code and is not compared; the theorems' conclusions mention only clock readings. "
                "The bounds are wall-clock bounds (time while suspended is not subtracted); the harness oracles check the un-suspended-time bounds on the real code.",
     rule=("send + recv engines as in C04/C07: timeouts 1-5 s x limits 1-3, clock advances of 1 ms .. 30 s including just-before-expiry values (999 / 1000 / 1001 ms), blackouts "
           "(wind-down rounds of timeouts without answers), every handler action for conditions 1, 4, 5, 6, 7, 8, 10. Oracles ack_not_early, inactivity_not_early (in un-suspended time, on the real code). "
           "Non-trivial = a PDU was emitted or an indication raised."),
     assumptions=["clock readings never decrease (tokio::time::Instant is monotonic)", "timeout > 0 for updateLoop_closed (with timeout 0 the Rust loop does not terminate)"],
-    unproved=["'never later': that the fault IS declared once max timeouts have elapsed needs the loop to wake up (liveness, C03/C02)",
+    unproved=["'never later' is proved per call of handle_timeout and for the computed sleep; what the runtime adds between the end of the sleep and the call (scheduling latency of the task) is outside the model",
               "the bound in un-suspended time (the theorems bound wall-clock time; suspension pauses the counters, see C19)"],
 )
 
